@@ -254,7 +254,7 @@ pub fn run(ctx: &Ctx) {
     );
     ctx.assume("after an operation panics the case ends (labelled): no invariant is asserted on a model that unwound mid-operation");
     let (cases, len) = match ctx.tier {
-        Tier::Quick => (120000, 14),
+        Tier::Quick => (600000, 14),
         Tier::Thorough => (3000000, 40),
     };
     let no_cse = ctx.avoid("c27-cse-arrays");
